@@ -18,7 +18,7 @@ def relevant(c):
 
 
 OPS = [("set", (False,)), ("get", (None,)), ("set_many", (None,)), ("delete", (False,)), ("quit", (None,))]
-TIMEOUTS = [(3, 7), (None, 7), (3, None), (None, None), (5, 5)]
+TIMEOUTS = [(3, 7), (None, 7), (3, None), (None, None), (5, 5), (0, 4), (4, 0)]      # 0 = non-blocking, not "no timeout"
 
 
 def configs(tier):
